@@ -55,6 +55,10 @@ where
 
     // Batch size for draining commit notifications
     max_batch_size: usize,
+
+    // Highest log index already handed to the SM Worker. `pending_range()` starts at
+    // last_applied + 1, and last_applied only advances once the worker has applied.
+    dispatched_up_to: std::sync::atomic::AtomicU64,
 }
 
 #[async_trait]
@@ -134,6 +138,7 @@ where
             sm_apply_tx: deps.sm_apply_tx,
             shutdown_signal: deps.shutdown_signal,
             max_batch_size: deps.max_batch_size,
+            dispatched_up_to: std::sync::atomic::AtomicU64::new(0),
         }
     }
 
@@ -153,7 +158,14 @@ where
         let Some(range) = pending_range else {
             return Ok(());
         };
-        let entries = self.raft_log.get_entries_range(range)?;
+        // Skip what is already queued to the SM Worker but not applied yet; sending it again
+        // would apply those entries twice.
+        let dispatched = self.dispatched_up_to.load(std::sync::atomic::Ordering::Acquire);
+        let start = (*range.start()).max(dispatched.saturating_add(1));
+        if start > *range.end() {
+            return Ok(());
+        }
+        let entries = self.raft_log.get_entries_range(start..=*range.end())?;
 
         debug!(
             "[Node-{}] commit handler process batch, length = {}",
@@ -289,12 +301,14 @@ where
                 self.my_id,
                 entries.len()
             );
+            let last_index = entries.last().map(|e| e.index).unwrap_or(0);
 
             // Send entries to SM Worker without waiting for apply
             self.sm_apply_tx.send(entries).map_err(|e| {
                 error!("[Node-{}] SM Worker channel closed: {:?}", self.my_id, e);
                 crate::Error::Fatal(format!("SM Worker channel closed: {e:?}"))
             })?;
+            self.dispatched_up_to.fetch_max(last_index, std::sync::atomic::Ordering::AcqRel);
         }
         Ok(())
     }
